@@ -48,6 +48,10 @@ PAIRS_SMALL = [('make_m1_numeric', 'make_m1_other'), ('make_m2_alnum', 'make_m3_
 PAIRS_SAVE = [('ppm_small_a', 'ppm_small_b'), ('png_small', 'svg_small'), ('seq_small', 'make_m2_alnum'), ('ppm_small_a', 'make_m1_numeric'),
               ('iter_verbose_v2_a', 'iter_verbose_v2_b'), ('make_1h', 'make_1h_other'),
               ('shared_svg', 'shared_matrix'), ('shared_eps', 'shared_png')]
+# pairs whose scheduling points are restricted to one source file (the encoder underneath runs atomically; its own interleavings are
+# explored by the other pairs): the helper factories' own state
+PAIRS_FILE = [('helper_epc', 'helper_epc_b', 'helpers.py'), ('helper_mecard', 'helper_mecard_b', 'helpers.py'), ('helper_wifi', 'helper_wifi_b', 'helpers.py'),
+              ('helper_vcard', 'helper_vcard_b', 'helpers.py'), ('helper_email', 'helper_geo', 'helpers.py')]
 PAIRS_LARGE = [('save_ppm_colormap', 'save_ppm_colormap_b'), ('save_png_palette', 'save_svg'),
                ('seq_count', 'make_m2_alnum'), ('save_png_colorful', 'make_m1_numeric'), ('make_m2_alnum', 'fail_overflow')]
 SAME_SHAPE = {('make_m1_numeric', 'make_m1_other'), ('ppm_small_a', 'ppm_small_b'), ('iter_verbose_v2_a', 'iter_verbose_v2_b'), ('make_1h', 'make_1h_other')}
@@ -133,6 +137,50 @@ def judge_history(ops, st, res, refs, acc, s0, states):
     return ok
 
 
+# ------------------------------------------------------------------------------------------- long histories
+def long_contents(tier):
+    """several thousand different small contents: every 3-digit group, alphanumeric pairs, single bytes, kanji characters"""
+    out = [('%03d' % i, {}) for i in range(1000)] + [('%02d' % i, {}) for i in range(100)]
+    alnum = '0123456789ABCDEFGHIJKLMNOPQRSTUVWXYZ $%*+-./:'
+    step = 1
+    out += [(a + b, {}) for i, a in enumerate(alnum) for j, b in enumerate(alnum) if (i * 45 + j) % step == 0 and not (a + b).isdigit()]
+    out += [(bytes([b]), {'micro': False}) for b in range(256)]
+    n = 0
+    for code in range(0x889f, 0x9ffd):
+        if n >= (2600 if tier == 'quick' else 5000):
+            break
+        try:
+            ch = bytes([code >> 8, code & 0xff]).decode('shift_jis')
+        except UnicodeDecodeError:
+            continue
+        if len(ch) == 1:
+            out.append((ch, {}))
+            n += 1
+    return out
+
+
+def _long_child(tier, order):
+    items = long_contents(tier)
+    idx = list(range(len(items)))
+    if order == 'reverse':
+        idx.reverse()
+    elif order == 'interleaved':
+        idx = idx[::2] + idx[1::2][::-1]
+    res = {}
+    for i in idx:
+        content, kw = items[i]
+        try:
+            q = segno.make(content, **kw)
+            res[i] = O.digest(O.canon_qr(q))
+        except Exception as e:
+            res[i] = 'EXC %s %s' % (type(e).__name__, str(e)[:80])
+    return res
+
+
+def _long_task(args):
+    return args[1], hist.run_forked(lambda: _long_child(*args))
+
+
 # ------------------------------------------------------------------------------------------- schedules
 _PAIR_CACHE = {}
 
@@ -157,7 +205,11 @@ def _profile_child(a, b, gran):
 
 def _exec_child(a, b, gran, start, switches):
     _prologue(a, b)
-    res, st, pre = sched.Execution([_fn(a), _fn(b)], LIBDIR, start, switches, gran).run()
+    libdir = LIBDIR
+    if '@' in gran:
+        gran, fname = gran.split('@')
+        libdir = os.path.join(LIBDIR, fname)
+    res, st, pre = sched.Execution([_fn(a), _fn(b)], libdir, start, switches, gran).run()
     return tuple(O.digest(r) for r in res), tuple(st), pre, [repr(r)[:160] for r in res]
 
 
@@ -213,6 +265,8 @@ def plan_schedules(tier):
     for (a, b) in PAIRS_SAVE:
         heavy = (a, b) in (('make_1h', 'make_1h_other'), ('iter_verbose_v2_a', 'iter_verbose_v2_b'))
         plan.append((a, b, 'line' if ((not q and not heavy) or (a, b) in PROLOGUE) else 'call', 1))
+    for (a, b, fname) in PAIRS_FILE:
+        plan.append((a, b, 'line@' + fname, 1 if q else 2))
     if not q:
         for (a, b) in PAIRS_LARGE:
             plan.append((a, b, 'call', 1))
@@ -341,6 +395,28 @@ def main(tier, seed, jobs, t0):
                 judge_history(ops, st, res, refs, acc, s0, states)
         extra['explicit_histories'] = nh
         phase['explicit_histories_s'] = round(time.time() - tp, 1); tp = time.time()
+        # --- E-hist 3: long histories.  The same several thousand calls in three different orders, each order in its own child of the
+        # pristine process: every call's result must not depend on where in the history it is made (bounded caches, eviction, counters)
+        orders = ('forward', 'reverse') if q else ('forward', 'reverse', 'interleaved')
+        longres = {}
+        for order, (st, res) in pool.imap_unordered(_long_task, [(tier, o) for o in orders]):
+            if st != 'ok':
+                raise runner.CheckerError('long history %s crashed: %s' % (order, res))
+            longres[order] = res
+        items = long_contents(tier)
+        base = longres['forward']
+        nlong = 0
+        for order in orders:
+            nlong += len(longres[order])
+            for i, d in longres[order].items():
+                acc.evals += 1
+                if d != base[i] or d.startswith('EXC'):
+                    acc.violation('history-dependent/long-history', 'make(%r) as call number %d of the %s history of %d calls gives %s, in the forward history %s'
+                                  % (items[i][0], (i if order == 'forward' else -1), order, len(items), d[:60], base[i][:60]), ('longhist', order, i))
+        extra['long_history_calls'] = nlong
+        extra['long_history_orders'] = list(orders)
+        acc.ctr['long_history_calls'] = nlong
+        phase['long_histories_s'] = round(time.time() - tp, 1); tp = time.time()
         extra['history_length_bound'] = 2 if q else 3
         if len(states) == 1:
             acc.sample({'E-hist': 'every one of the %d operations maps the initial state S0 to S0 (self-loops): reachable state set {S0}' % len(O.OPS)})
@@ -448,5 +524,16 @@ def replay(path):
                   'the sequential references (identical in two replays)' % (path, a, b, start, list(switches)))
             return 1
         print('replay: schedule reproduces the sequential results')
+        return 0
+    if case[0] == 'longhist':
+        _, order, i = case
+        tier = 'quick'
+        res = {o: hist.run_forked(lambda o=o: _long_child(tier, o))[1] for o in ('forward', order)}
+        bad = [k for k in res['forward'] if res['forward'][k] != res[order][k] or res[order][k].startswith('EXC')]
+        if bad:
+            print('VIOLATION property=C15 replay=%s key=history-dependent/long-history %d calls of the %s history differ from the forward history (first: call %d)'
+                  % (path, len(bad), order, bad[0]))
+            return 1
+        print('replay: both orders agree')
         return 0
     return runner.replay(sys.modules[__name__], path)
